@@ -642,25 +642,15 @@ class _zbl(_Potential_Function_Base):
     :param z1: Atomic number of species i
     :param z2: Atomic number of species j
     :return: Derivative of function"""
-    v = -14.39942*z1*z2*(self.Ck1*math.exp(2.13503407300877*r*(z1**0.23 + z2**0.23)\
-        * (self.Bk2 + self.Bk3 + self.Bk4))\
-        + self.Ck2*math.exp(2.13503407300877*r*(z1**0.23 + z2**0.23)\
-        *(self.Bk1 + self.Bk3 + self.Bk4))\
-        + self.Ck3*math.exp(2.13503407300877*r*(z1**0.23 + z2**0.23)\
-        *(self.Bk1 + self.Bk2 + self.Bk4))\
-        + self.Ck4*math.exp(2.13503407300877*r*(z1**0.23 + z2**0.23)\
-        *(self.Bk1 + self.Bk2 + self.Bk3))\
-        + 2.13503407300877*r*(z1**0.23 + z2**0.23)\
-        *(self.Bk1*self.Ck1*math.exp(2.13503407300877\
-        *r*(z1**0.23 + z2**0.23)*(self.Bk2 + self.Bk3 + self.Bk4))\
-        + self.Bk2*self.Ck2*math.exp(2.13503407300877*r*(z1**0.23 + z2**0.23)\
-        *(self.Bk1 + self.Bk3 + self.Bk4))\
-        + self.Bk3*self.Ck3*math.exp(2.13503407300877*r*(z1**0.23 + z2**0.23)\
-        *(self.Bk1 + self.Bk2 + self.Bk4)) + self.Bk4*self.Ck4\
-        *math.exp(2.13503407300877*r*(z1**0.23 + z2**0.23)\
-        *(self.Bk1 + self.Bk2 + self.Bk3))))\
-        *math.exp(-2.13503407300877*r*(z1**0.23 + z2**0.23)\
-        *(self.Bk1 + self.Bk2 + self.Bk3 + self.Bk4))/r**2
+    # Each term carries its own decaying exponential exp(-Bk*c*r). (The same expression written as
+    # exp(+c*r*(sum of the other Bk)) * exp(-c*r*(sum of all Bk)) overflows for r beyond ~13 Angstrom.)
+    c = 2.13503407300877*(z1**0.23 + z2**0.23)
+    e1 = math.exp(-self.Bk1*c*r)
+    e2 = math.exp(-self.Bk2*c*r)
+    e3 = math.exp(-self.Bk3*c*r)
+    e4 = math.exp(-self.Bk4*c*r)
+    v = -14.39942*z1*z2*(self.Ck1*e1 + self.Ck2*e2 + self.Ck3*e3 + self.Ck4*e4 \
+        + c*r*(self.Bk1*self.Ck1*e1 + self.Bk2*self.Ck2*e2 + self.Bk3*self.Ck3*e3 + self.Bk4*self.Ck4*e4))/r**2
     return v
 
   def deriv2(self, r, z1, z2):
